@@ -14,7 +14,9 @@ structure ClientFacts (s : St) (ins : List In) : Prop where
   disc     : discEvents (clientRecv s ins).2 = [(s.smId, s.inbound + stanzaCount (processed ins))]
   errh     : errhCount (clientRecv s ins).2 =
                serrCount (processed ins) + (if isClose (stopper ins) then 0 else 1)
-  quit     : (clientRecv s ins).2.getLast? = some .quitClosed
+  /-- the keepalive's quit channel is closed - exactly once - and no Disconnected event is raised before that -/
+  quit     : ((clientRecv s ins).2.filter (· == .quitClosed)).length = 1 ∧
+               discEvents ((clientRecv s ins).2.takeWhile (· != .quitClosed)) = []
 
 private theorem proc_cons_cont (i : In) (rest : List In) (h : stops i = false) :
     processed (i :: rest) = i :: processed rest ∧ stopper (i :: rest) = stopper rest := by
@@ -34,6 +36,7 @@ private theorem facts_cont (s s' : St) (i : In) (rest : List In) (acts : List Ac
     (hns : isReq i = true → isStanzaIn i = false)
     (hd : discEvents acts = [])
     (he : errhCount acts = (if isSerr i then 1 else 0))
+    (hq : ∀ a ∈ acts, (a != Act.quitClosed) = true)
     (ih : ClientFacts s' rest) : ClientFacts s (i :: rest) := by
   obtain ⟨hp, hst⟩ := proc_cons_cont i rest hstop
   have hrun : clientRecv s (i :: rest) = ((clientRecv s' rest).1, acts ++ (clientRecv s' rest).2) := by
@@ -67,8 +70,18 @@ private theorem facts_cont (s s' : St) (i : In) (rest : List In) (acts : List Ac
     rw [List.filter_append, List.length_append, he, ← errhCount, ih.errh]
     omega
   · rw [hrun]; simp only
-    have := ih.quit
-    rw [List.getLast?_append, this]; simp
+    obtain ⟨q1, q2⟩ := ih.quit
+    constructor
+    · rw [List.filter_append, List.length_append, q1]
+      have : acts.filter (· == Act.quitClosed) = [] := by
+        apply List.filter_eq_nil_iff.mpr
+        intro a ha
+        have := hq a ha
+        simpa using this
+      simp [this]
+    · rw [List.takeWhile_append_of_pos hq]
+      simp only [discEvents] at hd q2 ⊢
+      rw [List.filterMap_append, hd, q2]; rfl
 
 /-- **All client-side facts hold for every inbound history and every starting state.** -/
 theorem client_facts (ins : List In) : ∀ s : St, ClientFacts s ins := by
@@ -102,40 +115,40 @@ theorem client_facts (ins : List In) : ∀ s : St, ClientFacts s ins := by
             (by simp [routedStanzas, stanzaOf, Pkt.isStanza])
             (by simp [answers, isReq])
             (by simp [isStanzaIn, stanzaOf, Pkt.isStanza])
-            (by simp [discEvents]) (by simp [errhCount, isSerr]) (ih s)
+            (by simp [discEvents]) (by simp [errhCount, isSerr]) (by simp) (ih s)
       | serr =>
         exact facts_cont s s (.pkt .serr f) rest [.route .serr, .streamErrorEv, .errh, .disconnect, .route .serr] (by simp [clientStep]) rfl rfl
           (by simp [isStanzaIn, stanzaOf, Pkt.isStanza])
           (by simp [routedStanzas, stanzaOf, Pkt.isStanza])
-          (by simp [answers, isReq]) (by simp [isReq]) (by simp [discEvents]) (by simp [errhCount, isSerr]) (ih s)
+          (by simp [answers, isReq]) (by simp [isReq]) (by simp [discEvents]) (by simp [errhCount, isSerr]) (by simp) (ih s)
       | msg id =>
         exact facts_cont s { s with inbound := s.inbound + 1 } (.pkt (.msg id) f) rest [.route (.msg id)]
           (by simp [clientStep, Pkt.isStanza]) rfl rfl
           (by simp [isStanzaIn, stanzaOf, Pkt.isStanza])
           (by simp [routedStanzas, stanzaOf, Pkt.isStanza])
-          (by simp [answers, isReq]) (by simp [isReq]) (by simp [discEvents]) (by simp [errhCount, isSerr]) (ih _)
+          (by simp [answers, isReq]) (by simp [isReq]) (by simp [discEvents]) (by simp [errhCount, isSerr]) (by simp) (ih _)
       | pres id =>
         exact facts_cont s { s with inbound := s.inbound + 1 } (.pkt (.pres id) f) rest [.route (.pres id)]
           (by simp [clientStep, Pkt.isStanza]) rfl rfl
           (by simp [isStanzaIn, stanzaOf, Pkt.isStanza])
           (by simp [routedStanzas, stanzaOf, Pkt.isStanza])
-          (by simp [answers, isReq]) (by simp [isReq]) (by simp [discEvents]) (by simp [errhCount, isSerr]) (ih _)
+          (by simp [answers, isReq]) (by simp [isReq]) (by simp [discEvents]) (by simp [errhCount, isSerr]) (by simp) (ih _)
       | iq id =>
         exact facts_cont s { s with inbound := s.inbound + 1 } (.pkt (.iq id) f) rest [.route (.iq id)]
           (by simp [clientStep, Pkt.isStanza]) rfl rfl
           (by simp [isStanzaIn, stanzaOf, Pkt.isStanza])
           (by simp [routedStanzas, stanzaOf, Pkt.isStanza])
-          (by simp [answers, isReq]) (by simp [isReq]) (by simp [discEvents]) (by simp [errhCount, isSerr]) (ih _)
+          (by simp [answers, isReq]) (by simp [isReq]) (by simp [discEvents]) (by simp [errhCount, isSerr]) (by simp) (ih _)
       | a h =>
         exact facts_cont s s (.pkt (.a h) f) rest [.route (.a h)] (by simp [clientStep, Pkt.isStanza]) rfl rfl
           (by simp [isStanzaIn, stanzaOf, Pkt.isStanza])
           (by simp [routedStanzas, stanzaOf, Pkt.isStanza])
-          (by simp [answers, isReq]) (by simp [isReq]) (by simp [discEvents]) (by simp [errhCount, isSerr]) (ih s)
+          (by simp [answers, isReq]) (by simp [isReq]) (by simp [discEvents]) (by simp [errhCount, isSerr]) (by simp) (ih s)
       | nonza n =>
         exact facts_cont s s (.pkt (.nonza n) f) rest [.route (.nonza n)] (by simp [clientStep, Pkt.isStanza]) rfl rfl
           (by simp [isStanzaIn, stanzaOf, Pkt.isStanza])
           (by simp [routedStanzas, stanzaOf, Pkt.isStanza])
-          (by simp [answers, isReq]) (by simp [isReq]) (by simp [discEvents]) (by simp [errhCount, isSerr]) (ih s)
+          (by simp [answers, isReq]) (by simp [isReq]) (by simp [discEvents]) (by simp [errhCount, isSerr]) (by simp) (ih s)
 
 private theorem procC_cons_cont (i : In) (rest : List In) (h : stopsC i = false) :
     processedC (i :: rest) = i :: processedC rest ∧ stopperC (i :: rest) = stopperC rest := by
